@@ -411,6 +411,21 @@ def _phases(run, P):
     ok = bool(sub) and key is not None and dotted(sub[0].targets[0].slice) == key \
         and len(ret) == 1 and isinstance(ret[0].value, ast.Call) and ret[0].value.args \
         and dotted(ret[0].value.args[0]) == dotted(sub[0].targets[0].value)
+    if not sub and any(isinstance(x, ast.Call) and (dotted(x.func) or "").endswith("from_phases_list")
+                       for x in ast.walk(fd.node)):
+        # built from a list by DAGCode.from_phases_list, which keys by ExecutionPhase.name:
+        # right exactly when every listed phase is given its key as its name
+        renamed = [x for x in ast.walk(fd.node) if isinstance(x, ast.Call) and isinstance(x.func, ast.Attribute)
+                   and x.func.attr == "copy" and any(k_.arg == "name" and dotted(k_.value) == key
+                                                     for k_ in x.keywords)]
+        run.ob("C16.phases", fd, renamed[0] if renamed else fd.node, bool(renamed),
+               construct="from_phases_list: every listed phase is a copy named by the key it has in "
+                         "the input methods" + ("" if renamed else " (no .copy(name=<key>))"),
+               why="from_phases_list files a phase under its .name: a phase whose name differs "
+                   "from its key ends up under another key, and initial phase, successors and "
+                   "switches no longer find it")
+        ok = True
+        sub = sub or [fd.node]
     run.ob("C16.phases", fd, sub[0] if sub else fd.node, ok,
            construct="result[phase name] = fuse_two_phases(...); the returned DAGCode is built from that map",
            why="every fused phase is stored under its own name and returned")
@@ -472,6 +487,11 @@ def _table(run, P):
                     else:
                         want = "ExecutionPhase(name, next_phase, statements=disambiguate_and_fuse(...)[0])"
                         ok = False
+                        if kind == "raise" and val not in ("ValueError",) and differ is not None:
+                            # a sanity check on the fused result that can refuse it: under which
+                            # inputs it does is in a helper's loop over names, not decided here
+                            raise AnalysisError(f"fuse_two_phases: {case}: may raise {val} after "
+                                                f"fusing; not decided")
                         if kind == "return" and val[0] == "call" and val[1][0] == "name" \
                                 and val[1][1].split(".")[-1] == "ExecutionPhase" and differ is not None:
                             kw = dict(val[3])
